@@ -220,6 +220,7 @@ const (
 	FeatChar     = "charlevel" // one fragment per glyph
 	FeatTwoBands = "twobands"  // two vertically stacked column sets
 	FeatSuper    = "super"     // raised, smaller footnote mark directly after a word
+	FeatOverflow = "overflow"  // enlarged coordinates inside an unscaled page box: part of the text lies outside the page
 	FeatGutter   = "gutter"    // short word inside the gutter between two columns
 )
 
@@ -824,8 +825,17 @@ func finish(g *gen) {
 		}
 		if g.want(FeatScale, g.pct("scale", 15)) {
 			p.Scale = rapid.SampledFrom([]float64{0.1, 0.5, 2, 0.24}).Draw(t, "scaleFactor")
-			// an enlarging transformation needs an enlarged page box to keep the text on the page
-			p.ScaleBox = p.Scale > 1 || rapid.Bool().Draw(t, "scaleBox")
+			// an enlarging transformation normally comes with an enlarged page box; without one part of the text
+			// lies outside the MediaBox, which is legal (ISO 32000-1 14.11.2: content outside the box is clipped
+			// when rendered, it is still in the content stream and text extraction still sees it)
+			p.ScaleBox = rapid.Bool().Draw(t, "scaleBox")
+			if p.Scale > 1 && !p.ScaleBox {
+				if g.want(FeatOverflow, true) {
+					g.use(FeatOverflow)
+				} else {
+					p.ScaleBox = true
+				}
+			}
 			g.use(FeatScale)
 		}
 	}
